@@ -19,11 +19,48 @@ def attach_real(name):
     return rt
 
 
+class Boundary:
+    """what the runtime handed to the backend, recorded at the call boundary (the backend's own lists are under test)"""
+    installed = False
+    pubvals, privvals, constraints = [], [], []
+
+
+def install_boundary(rt):
+    if Boundary.installed:
+        return
+    b = rt.backend
+    o_priv, o_pub, o_con = b.privval, b.pubval, b.add_constraint
+
+    def privval(val):
+        r = o_priv(val)
+        Boundary.privvals.append(val)
+        return r
+
+    def pubval(val):
+        r = o_pub(val)
+        Boundary.pubvals.append(val)
+        return r
+
+    def add_constraint(v, w, y):
+        Boundary.constraints.append((dict(v.lc), dict(w.lc), dict(y.lc)))
+        return o_con(v, w, y)
+    b.privval, b.pubval, b.add_constraint = privval, pubval, add_constraint
+    Boundary.installed = True
+
+
+def boundary_snapshot(rt):
+    return dict(p=rt.backend.get_modulus(), pubvals=list(Boundary.pubvals), privvals=list(Boundary.privvals),
+                constraints=[(dict(a), dict(b), dict(c)) for a, b, c in Boundary.constraints])
+
+
 def reset(rt, bitlength=16, resolution=8):
     b = rt.backend
     del b.privvals[:]
     del b.pubvals[:]
     del b.constraints[:]
+    del Boundary.pubvals[:]
+    del Boundary.privvals[:]
+    del Boundary.constraints[:]
     rt.guard = None
     rt._ignore_errors = False
     rt.LinComb.ONE = rt.LinComb.ONE_SAFE
